@@ -292,6 +292,12 @@ class Interp:
         self.place_counter = 0
         self.lib = {}
         self.preconditions = []
+        # results declared in a for body (outside any function call) that nothing in their iteration consumes:
+        # name -> [Sig, one per iteration]   ("a for loop equals its unrolling": each copy exposes its own result)
+        self.loop_outputs = {}
+        self._local_consumed = set()
+        self._pending = []
+        self._in_call = 0
 
     # -------------------------------------------------------------- scopes
     def lookup(self, name):
@@ -322,6 +328,7 @@ class Interp:
         parameter, local or iterator of the same spelling)"""
         for sc in reversed(self.env[1:]):
             if name in sc:
+                self._local_consumed.add((id(sc), name))
                 return
         self.consumed.add(name)
 
@@ -515,13 +522,16 @@ class Interp:
         saved = self.env
         self.env = [saved[0], scope]
         self.depth += 1
+        self._in_call += 1
         try:
             for s in body:
                 self.stmt(s)
             r = self.ev(ret) if ret is not None else None
         finally:
+            self._in_call -= 1
             self.depth -= 1
             self.env = saved
+            self._local_consumed = {k for k in self._local_consumed if k[0] != id(scope)}
         return r
 
     # -------------------------------------------------------------- statements
@@ -552,6 +562,8 @@ class Interp:
             self.bind(s[1], v)
             if top:
                 self.toplevel_names.append(s[1])
+            elif self._pending and not self._in_call:
+                self._pending[-1].append((s[1], v))
         elif k == "bun":
             v = self.ev(s[2])
             if not isinstance(v, Bun):
@@ -598,14 +610,23 @@ class Interp:
         elif k == "for":
             _, var, it, body = s
             for i in iteration_values(it, self):
-                self.env.append({var: i})
+                scope = {var: i}
+                self.env.append(scope)
                 self.depth += 1
+                pend = []
+                self._pending.append(pend)
                 try:
                     for b in body:
                         self.stmt(b)
+                    if not self._in_call:
+                        for (nm, val) in pend:
+                            if (id(scope), nm) not in self._local_consumed and scope.get(nm) is val:
+                                self.loop_outputs.setdefault(nm, []).append(val)
                 finally:
+                    self._pending.pop()
                     self.depth -= 1
                     self.env.pop()
+                    self._local_consumed = {k for k in self._local_consumed if k[0] != id(scope)}
         elif k == "expr":
             self.ev(s[1])
         elif k == "import":
